@@ -44,6 +44,7 @@ package main
 
 import (
 	"fmt"
+	"os"
 	"reflect"
 	"regexp"
 	"strconv"
@@ -666,6 +667,45 @@ type phCase struct {
 
 var phQuiet sync.Once
 
+var phEnvName = regexp.MustCompile(`^[A-Za-z_][A-Za-z0-9_]{1,63}$`)
+var phEnvWord = regexp.MustCompile(`[A-Za-z0-9_.\-]+`)
+var phEnvKeep = map[string]bool{"TZ": true, "LANG": true, "TMPDIR": true, "HOME": true, "PATH": true, "USER": true, "PWD": true}
+
+// phDecoyEnv sets decoy environment variables for the keys of the case (never one that exists already) and returns the undo
+func phDecoyEnv(c phCase) func() {
+	names := map[string]bool{}
+	rep := strings.NewReplacer(".", "_", "-", "_")
+	add := func(path string) {
+		parts := strings.Split(path, ".")
+		for i := 1; i <= len(parts); i++ {
+			n := strings.ToUpper(rep.Replace(strings.Join(parts[:i], ".")))
+			if phEnvName.MatchString(n) && !phEnvKeep[n] && !strings.HasPrefix(n, "GO") && !strings.HasPrefix(n, "LC_") {
+				names[n] = true
+			}
+		}
+	}
+	var paths []string
+	phPaths(c.cfg, "", &paths)
+	for _, p := range paths {
+		add(p)
+	}
+	for _, m := range phEnvWord.FindAllString(c.text, -1) {
+		add(m)
+	}
+	var set []string
+	for n := range names {
+		if _, exists := os.LookupEnv(n); !exists {
+			os.Setenv(n, "env-decoy")
+			set = append(set, n)
+		}
+	}
+	return func() {
+		for _, n := range set {
+			os.Unsetenv(n)
+		}
+	}
+}
+
 // after a hang the spinning goroutine cannot be stopped; the verdict is fixed, so no further case is run
 var phHung bool
 
@@ -678,6 +718,10 @@ func runPh(c phCase, w *hx.Writer) {
 	if err != nil || len(c.cfg.xs) == 0 {
 		yamlBytes = nil
 	}
+	// the process environment is no configuration source: while the case runs, variables named like its keys (and like every
+	// proper prefix of them, upper-cased, `.` and `-` as `_`) hold decoy values — a binder that consults the environment shows
+	undoEnv := phDecoyEnv(c)
+	defer undoEnv()
 	cfg, err := newConfigure(yamlBytes)
 	if err != nil {
 		return // a configuration YAML cannot carry; not a container matter
